@@ -1651,6 +1651,10 @@ func replay(line string) {
 		runMgr(w[1])
 	case "val":
 		replayVal(w)
+	case "zero":
+		if s := byName[w[1]]; s != nil {
+			runZero(s, kv(w, "first"), kv(w, "op"))
+		}
 	case "src":
 		if ops := kv(w, "ops"); ops != "" {
 			runSrc(strings.Split(ops, ","))
